@@ -315,6 +315,12 @@ def find_irrelevant_type(etype: tp.Type, types: List[tp.Type],
     if etype == factory.get_any_type():
         return None
 
+    if etype.is_wildcard():
+        # A projection is related to every type its bound is related to.
+        etype = etype.get_bound_rec()
+        if etype is None or etype == factory.get_any_type():
+            return None
+
     if isinstance(etype, tp.TypeParameter):
         if etype.bound is None or etype.bound == factory.get_any_type():
             # Every type except for the top type is irrelevant to an
